@@ -105,7 +105,14 @@ Errors(u) == {
    Cat(<<"value1 := 1", NL, "valueA := 2", NL, "Value := 3", NL, "vAlue := 4", NL, "print(value)">>),
    Cat(<<"l := [1]", NL, "l.appnd(2)">>),
    Cat(<<"s := \"x\"", NL, "s.To_upper()">>),
-   "from math import Abs, aBs, abS"
+   "from math import Abs, aBs, abS",
+   \* values whose Go representation holds pointers, as the operand an error message talks about
+   Cat(<<"c := chan(1)", NL, "c[0]">>), Cat(<<"c := chan(1)", NL, "1 in c">>), Cat(<<"c := chan(1)", NL, "a, b := c">>),
+   Cat(<<"c := chan(1)", NL, "c[0] = 1">>), Cat(<<"c := chan(1)", NL, "c[1:2]">>), Cat(<<"c := chan(1)", NL, "c + 1">>),
+   Cat(<<"f := func() {", NL, "}", NL, "f[0]">>), Cat(<<"f := func() {", NL, "}", NL, "f + 1">>), Cat(<<"f := func() {", NL, "}", NL, "a, b := f">>),
+   Cat(<<"t := spawn(func() {", NL, "})", NL, "t[0]">>), Cat(<<"t := spawn(func() {", NL, "})", NL, "t + 1">>),
+   "import os\nos.stdout[0]", "import os\n1 in os.stdout", "import time\ntime.now()[0]", "error(chan(1))", "error(\"%v\", chan(2))",
+   "[chan(1)][0] + 1", "{\"k\": chan(1)}.k.nope"
  }
 
 \* ---------------------------------------------------------------- order
